@@ -1,35 +1,9 @@
 import Mathlib.Tactic.Ring
+import GudhiVerif.Model.CubicalDefs
 import Mathlib.Tactic.Linarith
 /-! Prototype (C13): cubical boundary on counter vectors (highest direction first, as the C++ loop runs), with the sign
     carried by the position in the enumeration, and `∂∂ = 0`. Definitions are core-only; proofs use `ring`. -/
 namespace CubicalProto
-
-abbrev Cell := List Nat
-abbrev Chain := List (Cell × Int)
-
-/-- graded Leibniz form of the boundary: `∂(x ⊗ r) = ∂x ⊗ r + (−1)^{|x|} x ⊗ ∂r`, an odd counter is an interval -/
-def bd : Cell → Chain
-  | [] => []
-  | x :: rest =>
-    (if x % 2 = 1 then [((x - 1) :: rest, 1), ((x + 1) :: rest, -1)] else []) ++
-      (bd rest).map fun p => (x :: p.1, if x % 2 = 1 then -p.2 else p.2)
-
-/-- the C++ enumeration: directions from the top, the m-th non-degenerate one pushes (c−e, c+e) if m is even and
-    (c+e, c−e) if m is odd; the k-th pushed face gets the sign (−1)^k -/
-def bdEnum (pre : Cell) (m : Nat) : Cell → List Cell
-  | [] => []
-  | x :: rest =>
-    (if x % 2 = 1 then
-        (if m % 2 = 0 then [pre ++ (x - 1) :: rest, pre ++ (x + 1) :: rest]
-         else [pre ++ (x + 1) :: rest, pre ++ (x - 1) :: rest])
-      else []) ++ bdEnum (pre ++ [x]) (m + x % 2) rest
-
-def altSigns : Nat → List Cell → Chain
-  | _, [] => []
-  | k, c :: cs => (c, if k % 2 = 0 then 1 else -1) :: altSigns (k + 1) cs
-
-/-- coefficient of a cell in a chain -/
-def coef (ch : Chain) (g : Cell) : Int := (ch.map fun p => if p.1 = g then p.2 else 0).sum
 
 theorem coef_nil (g : Cell) : coef [] g = 0 := rfl
 theorem coef_cons (p : Cell × Int) (ch : Chain) (g : Cell) :
